@@ -136,6 +136,20 @@ def cause_of(e: BaseException) -> str:
     return f"{name}:{re.sub(r'[^A-Za-z ]+', '_', msg)[:50]}"
 
 
+def none_call_argument(body: str, ref: Any) -> bool:
+    """Some call ``f(self.a.b)`` in the invariant receives None on this instance."""
+    for m in re.finditer(r"\b\w+\((self(?:\.\w+)+)\)", body):
+        cur = ref
+        try:
+            for part in m.group(1).split(".")[1:]:
+                cur = getattr(cur, part)
+        except AttributeError:
+            continue
+        if cur is None:
+            return True
+    return False
+
+
 def opt_paths_none(body: str, neutral: Any) -> bool:
     """Some ``self.x`` mentioned in the body is None in the (root) instance."""
     for m in re.finditer(r"self\.(\w+)", body):
@@ -199,7 +213,11 @@ def evaluate(case: Dict[str, Any], base: Any, ctx: Any = None) -> List[Tuple[str
                 except IndexError:
                     continue
                 except BaseException as e:  # noqa
-                    fails.append((f"accepted-invariant-raises:{cause_of(e)}",
+                    cause = cause_of(e)
+                    if not cause.startswith("None-passed-to") and none_call_argument(inv.body, ref):
+                        # the failure happens inside the called function, the root cause is the None argument
+                        cause = "None-passed-to-call-argument"
+                    fails.append((f"accepted-invariant-raises:{cause}",
                                   f"invariant={inv.body!r}\ninstance={neutral!r}\n{type(e).__name__}: {e}"))
                     continue
                 if not isinstance(r, bool):
